@@ -7,6 +7,7 @@ code stage by stage and snapshots everything observable after each stage.
 from __future__ import annotations
 
 import copy
+from fractions import Fraction
 import math
 import warnings
 
@@ -109,9 +110,9 @@ def random_prms(rng, rows):
     if rng.random() < 0.6:
         p['MAX_HOLES_OKTA8'] = rng.choice([0, 1, 2, 4])
     if rng.random() < 0.5:
-        p['BASE_LVL_HEIGHT_PERC'] = rng.choice([0, 5, 10, 50, 95, 100, rng.randint(0, 100)])
+        p['BASE_LVL_HEIGHT_PERC'] = rng.choice([0, 5, 10, 50, 95, 100, rng.randint(0, 100), 0.9, 12.5, 99.5])
     if rng.random() < 0.4:
-        p['BASE_LVL_LOOKBACK_PERC'] = rng.choice([100, 10, 25, 40, 70, 1, rng.randint(1, 100)])
+        p['BASE_LVL_LOOKBACK_PERC'] = rng.choice([100, 10, 25, 40, 70, 1, rng.randint(1, 100), 12.5, 33.3, 99.9])
     names = sorted({c for c, _, _, _ in rows})
     if rng.random() < 0.3 and names:
         k = rng.randint(1, len(names))
@@ -187,13 +188,17 @@ def data_rows(df):
             zip(df['ceilo'], df['dt'], df['height'], df['type'])]
 
 
-def run_scene(rows, prms, index=None, stages=('slices', 'groups', 'layers'), frame=None):
-    """Execute the real pipeline on one scene under recording.  Returns the observation dict."""
+def run_scene(rows, prms, index=None, stages=('slices', 'groups', 'layers'), frame=None, debug_log=None):
+    """Execute the real pipeline on one scene under recording.  Returns the observation dict.
+    One scene in four (chosen from the scene itself) runs with the package's loggers at DEBUG."""
     common.import_ampycloud()
     from ampycloud.data import CeiloChunk
     obs = {'rows': rows, 'prms': prms, 'exc': None, 'stage': 'init', 'levels': {}, 'warnings': []}
     df = frame if frame is not None else make_frame(rows, index)
-    with record.recording() as tr, warnings.catch_warnings(record=True) as wl:
+    if debug_log is None:
+        debug_log = common.ambient_debug_for((len(rows), rows[:2], sorted((prms or {}).items(), key=str)))
+    obs['debug_log'] = bool(debug_log)
+    with common.debug_logging(debug_log), record.recording() as tr, warnings.catch_warnings(record=True) as wl:
         warnings.simplefilter('always')
         try:
             chunk = CeiloChunk(df, prms=copy.deepcopy(prms))
@@ -233,8 +238,17 @@ def prm_section(eff, flag):
     ex = eff.get('EXCLUDE_FOR_BASE_HEIGHT_CALC') or []
     if isinstance(ex, str):
         ex = [ex]
+    # The crop limit is a binary64 *sum* in the code (`self.msa + self.msa_hit_buffer`): a checked-oracle float
+    # operation.  The model adds exactly, so it is handed the buffer that makes its exact sum equal to the float
+    # limit the code compares the heights with (identical whenever the sum is exact, e.g. for integer settings).
+    buf = eff['MSA_HIT_BUFFER']
+    if msa is not None:
+        try:
+            buf = Fraction(msa + buf) - Fraction(msa)
+        except (TypeError, ValueError, OverflowError):
+            pass
     return ('PRM msa={} buf={} t0={} t8={} q={} lb={} flag={} excl={}'.format(
-        'nan' if msa is None else common.frac(msa), common.frac(eff['MSA_HIT_BUFFER']),
+        'nan' if msa is None else common.frac(msa), common.frac(buf),
         common.frac(eff['MAX_HITS_OKTA0']), common.frac(eff['MAX_HOLES_OKTA8']),
         common.frac(eff['BASE_LVL_HEIGHT_PERC']), common.frac(eff['BASE_LVL_LOOKBACK_PERC']),
         'T' if flag else 'F', ','.join(tok(c) for c in ex)))
@@ -429,6 +443,8 @@ def parse_met_answer(ans):
 def scene_stats(obs):
     """Branch facts for the evidence histogram."""
     st = {}
+    if obs.get('debug_log'):
+        st['ambient_debug_logging'] = 1
     if obs.get('exc'):
         st['exception_' + obs['exc']] = 1
         return st
